@@ -1189,3 +1189,96 @@ Proof.
   - destruct r; try reflexivity. exfalso. apply (Hr' a). reflexivity.
   - rewrite (H4 q eq_refl) in *. repeat split; auto.
 Qed.
+
+(** * A collection during which an owner appears and registers an entry *)
+Lemma In_add_z x o l : In x (add_z o l) <-> x = o \/ In x l.
+Proof.
+  unfold add_z. destruct (mem_z o l) eqn:E.
+  - apply mem_z_In in E. split; [auto|]. intros [->|H]; assumption.
+  - rewrite in_app_iff. cbn. split; [intros [H|[H|[]]]; auto|intros [H|H]; auto].
+Qed.
+
+Lemma run_app c a : forall b s, run c (a ++ b) s = run c b (run c a s).
+Proof. induction a as [|p a IH]; intros b s; cbn; [reflexivity|apply IH]. Qed.
+
+Lemma xrun_lin c xs : forall s, xrun c xs s = run c (flat_map lin xs) s.
+Proof.
+  induction xs as [|x r IH]; intros s; cbn [xrun flat_map]; [reflexivity|].
+  rewrite run_app, IH. destruct x; reflexivity.
+Qed.
+
+(** every entry visited while its owner exists (the newcomer included) survives; exactly the others go;
+    the newcomer's entry, when its key was free, is there afterwards *)
+Lemma rule_gc_with_exact c k o s :
+  let s2 := run c [AppUp o; RuleCreate k o] s in
+  let s' := fst (xstep c (XRuleGcWith k o) s) in
+  s_apps s2 = add_z o (s_apps s) /\
+  (forall k' o', In (k', o') (s_rules s') <-> In (k', o') (s_rules s2) /\ In o' (add_z o (s_apps s))) /\
+  (forall k' o', In (k', o') (s_rules s) -> In o' (add_z o (s_apps s)) -> In (k', o') (s_rules s')) /\
+  (zlookup k (s_rules s) = None -> In (k, o) (s_rules s')) /\
+  s_vips s' = s_vips s /\ s_specs s' = s_specs s /\ s_res s' = s_res s /\ s_devs s' = s_devs s.
+Proof.
+  cbn [xstep fst lin run]. set (s1 := fst (step c (AppUp o) s)). set (s2 := fst (step c (RuleCreate k o) s1)).
+  assert (A2 : s_apps s2 = add_z o (s_apps s)).
+  { unfold s2, s1. cbn. destruct (create_tolerant Z.eqb k o o (s_rules s)); reflexivity. }
+  assert (Hsub : forall e, In e (s_rules s) -> In e (s_rules s2)).
+  { intros e He. unfold s2, s1. cbn. destruct (create_tolerant Z.eqb k o o (s_rules s)) as [t|] eqn:E; [|exact He].
+    cbn. apply create_tolerant_cases in E as [[_ ->]|[-> _]]; [apply in_or_app; left|]; exact He. }
+  destruct (rule_gc_exact c s2) as (G & _). cbn zeta in G.
+  split; [exact A2|]. split; [intros k' o'; rewrite <- A2; apply G|]. split; [|split].
+  - intros k' o' Hin Hl. apply G. rewrite A2. split; [apply Hsub; exact Hin|exact Hl].
+  - intros Hf. apply G. rewrite A2. split; [|apply In_add_z; left; reflexivity].
+    unfold s2, s1. cbn. unfold create_tolerant, symlink. rewrite Hf. cbn.
+    apply in_or_app. right. left. reflexivity.
+  - unfold s2, s1. cbn. destruct (create_tolerant Z.eqb k o o (s_rules s)); repeat split; reflexivity.
+Qed.
+
+Lemma spec_gc_with_exact c k o s :
+  let s2 := run c [AppUp o; SpecCreate k o] s in
+  let s' := fst (xstep c (XSpecGcWith k o) s) in
+  s_apps s2 = add_z o (s_apps s) /\
+  (forall k' o', In (k', o') (s_specs s') <-> In (k', o') (s_specs s2) /\ In o' (add_z o (s_apps s))) /\
+  (forall k' o', In (k', o') (s_specs s) -> In o' (add_z o (s_apps s)) -> In (k', o') (s_specs s')) /\
+  (slookup k (s_specs s) = None -> In (k, o) (s_specs s')) /\
+  s_vips s' = s_vips s /\ s_rules s' = s_rules s /\ s_res s' = s_res s /\ s_devs s' = s_devs s.
+Proof.
+  cbn [xstep fst lin run]. set (s1 := fst (step c (AppUp o) s)). set (s2 := fst (step c (SpecCreate k o) s1)).
+  assert (A2 : s_apps s2 = add_z o (s_apps s)).
+  { unfold s2, s1. cbn. destruct (create_tolerant spec_eqb k o (sp_app k) (s_specs s)); reflexivity. }
+  assert (Hsub : forall e, In e (s_specs s) -> In e (s_specs s2)).
+  { intros e He. unfold s2, s1. cbn. destruct (create_tolerant spec_eqb k o (sp_app k) (s_specs s)) as [t|] eqn:E; [|exact He].
+    cbn. apply create_tolerant_cases in E as [[_ ->]|[-> _]]; [apply in_or_app; left|]; exact He. }
+  destruct (spec_gc_exact c s2) as (G & _). cbn zeta in G.
+  split; [exact A2|]. split; [intros k' o'; rewrite <- A2; apply G|]. split; [|split].
+  - intros k' o' Hin Hl. apply G. rewrite A2. split; [apply Hsub; exact Hin|exact Hl].
+  - intros Hf. apply G. rewrite A2. split; [|apply In_add_z; left; reflexivity].
+    unfold s2, s1. cbn. unfold create_tolerant, symlink. rewrite Hf. cbn.
+    apply in_or_app. right. left. reflexivity.
+  - unfold s2, s1. cbn. destruct (create_tolerant spec_eqb k o (sp_app k) (s_specs s)); repeat split; reflexivity.
+Qed.
+
+Lemma vip_gc_with_exact c o picked s :
+  let s2 := run c [ResUp o; VipAlloc o picked] s in
+  let s' := fst (xstep c (XVipGcWith o picked) s) in
+  s_res s2 = add_z o (s_res s) /\
+  (forall k' o', In (k', o') (s_vips s') <-> In (k', o') (s_vips s2) /\ In o' (add_z o (s_res s))) /\
+  (forall k' o', In (k', o') (s_vips s) -> In o' (add_z o (s_res s)) -> In (k', o') (s_vips s')) /\
+  (forall a, snd (step c (VipAlloc o picked) (fst (step c (ResUp o) s))) = RAddr a -> In (a, o) (s_vips s')) /\
+  s_rules s' = s_rules s /\ s_specs s' = s_specs s /\ s_apps s' = s_apps s /\ s_devs s' = s_devs s.
+Proof.
+  cbn [xstep fst lin run]. set (s1 := fst (step c (ResUp o) s)). set (s2 := fst (step c (VipAlloc o picked) s1)).
+  pose proof (vip_alloc_outcome c o picked (s_vips s)) as Ha.
+  assert (A2 : s_res s2 = add_z o (s_res s)).
+  { unfold s2, s1. cbn. destruct (vip_alloc c o picked (s_vips s)); reflexivity. }
+  assert (Hsub : forall e, In e (s_vips s) -> In e (s_vips s2)).
+  { intros e He. unfold s2, s1. cbn. destruct (vip_alloc c o picked (s_vips s)) as [r t]. cbn in *.
+    inversion Ha; subst; [exact He|apply in_or_app; left; exact He]. }
+  destruct (vip_gc_exact c s2) as (G & _). cbn zeta in G.
+  split; [exact A2|]. split; [intros k' o'; rewrite <- A2; apply G|]. split; [|split].
+  - intros k' o' Hin Hl. apply G. rewrite A2. split; [apply Hsub; exact Hin|exact Hl].
+  - intros a Hr. apply G. rewrite A2. split; [|apply In_add_z; left; reflexivity].
+    unfold s2, s1 in *. cbn in *. destruct (vip_alloc c o picked (s_vips s)) as [r t]. cbn in *. subst r.
+    inversion Ha as [r' Hr'|b H1 H2 H3 H4 H5]; subst; [exfalso; apply (Hr' a); reflexivity|].
+    apply in_or_app. right. left. reflexivity.
+  - unfold s2, s1. cbn. destruct (vip_alloc c o picked (s_vips s)); repeat split; reflexivity.
+Qed.
